@@ -28,6 +28,10 @@ type routingFocus struct {
 
 type routingRun struct {
 	twin    *world.World // C11: same routes and options, fox's built-in special handlers
+	// C11: the connection of the previous unserved request and the Allow header it held when ServeHTTP returned
+	prevConn  *world.Conn
+	prevAllow string
+	prevWhat  string
 	src     sim.Source
 	res     *Result
 	f       routingFocus
